@@ -136,6 +136,21 @@ Definition clone_request (r : request) : request * request :=
           q_par := par; q_body := Some buf |})
   end.
 
+(* the variant whose copy buffer is pre-sized with LENGTH n instead of capacity
+   (bytes.NewBuffer(make([]byte, n)), n from the Content-Length header): both the reader put
+   back into the argument and the clone start with n NUL bytes *)
+Definition nul_prefix (n : nat) : string := string_of_list_ascii (repeat Ascii.zero n).
+Definition clone_request_presized (n : nat) (r : request) : request * request :=
+  match q_body r with
+  | None => clone_request r
+  | Some unread =>
+      let buf := (nul_prefix n ++ unread)%string in
+      ({| q_method := q_method r; q_path := q_path r; q_hdr := q_hdr r; q_qry := q_qry r;
+          q_par := q_par r; q_body := Some buf |},
+       {| q_method := q_method r; q_path := q_path r; q_hdr := copy_mmap (q_hdr r); q_qry := q_qry r;
+          q_par := copy_par (q_par r); q_body := Some buf |})
+  end.
+
 (* newContextWrapperWithTimeout: WithTimeout(context.Background(), timeout) (the source
    expression is a regenerated fact, Generated/Facts_ctx_shadow.v); values are looked up in
    the caller's context (not modelled by Ctx.v; observed by the harness) *)
